@@ -12,7 +12,7 @@ def consts(**kw):
         "Transports": "<- TStream", "Flavors": "<- BothFlavors", "Verifies": "<- GateBoth",
         "WritePolicy": '= "write_all"', "UdpPolicy": '= "buffered"', "PongPolicy": '= "cancel_safe"',
         "MaxErr": "= 0", "MaxPending": "= 0", "MaxCancel": "= 0", "MaxTimeout": "= 0",
-        "MaxWrites": "= 0", "WLens": "<- None", "FrameOK": "<- FrameAny", "KeepHist": "= TRUE", "MaxQueued": "= 2",
+        "MaxWrites": "= 0", "WLens": "<- None", "FrameOK": "<- FrameAny", "KeepHist": "= TRUE", "MaxQueued": "= 2", "Truncation": "= FALSE",
         "EmSmallFills": "= 3", "EmSizes": "<- S13458", "EmPong": "<- None", "EmWacc": "<- None",
     }
     c.update(kw)
@@ -139,8 +139,9 @@ def check_C05(chk):
                 "finished behaviour of the emit configuration is replayed on the real blocking and tokio Framed in both "
                 "size modes; randomized long sessions are recorded and validated by Trace_Conn. A case is one behaviour "
                 "or one recorded event; distinct = distinct behaviours by content hash.")
-    mc(chk, "c05_stream", consts(MaxFrames="= 4" if thorough else "= 3", MaxErr="= 1",
-                                 Lens="<- L4812" if thorough else "<- L48", Cap="= 16" if thorough else "= 12"),
+    mc(chk, "c05_trunc", consts(MaxFrames="= 3", MaxErr="= 0", Classes="<- ClsUdp", Verifies="<- GateOn", Truncation="= TRUE"), needs=("DoPeerTruncated", "FillEof"))
+    mc(chk, "c05_stream", consts(MaxFrames="= 4" if thorough else "= 3", MaxErr="= 1", Verifies="<- GateBoth" if thorough else "<- GateOn",
+                                 Lens="<- L48", Cap="= 12"),
        timeout=3000, needs=("FillStream", "FillErr", "FillEof", "TryDecode"))
     mc(chk, "c05_short", consts(Classes="<- ClsShort", Verifies="<- GateOn"))
     # liveness under weak fairness of the read loop (unconstrained FairSpec): every frame that arrived is eventually delivered
@@ -157,6 +158,9 @@ def check_C05(chk):
     nd, n = emit(chk, "c05_emit", consts(MaxFrames="= 2", Classes="<- ClsSeg", Verifies="<- GateOn", MaxErr="= 1",
                                          FrameOK="<- FrameReal", EmSmallFills="= 4" if thorough else "= 3"))
     replay(chk, nd, chk.seed)
+    nd, n = emit(chk, "c05_emit_trunc", consts(MaxFrames="= 2", Classes="<- ClsUdp", Verifies="<- GateOn", FrameOK="<- FrameReal", Truncation="= TRUE",
+                                               EmSmallFills="= 2", EmSizes="<- S134"))
+    replay(chk, nd, chk.seed + 3)
     nd, n = emit(chk, "c05_emit3", consts(MaxFrames="= 3", Classes="<- ClsSeg", Verifies="<- GateOn", MaxErr="= 0",
                                           FrameOK="<- FrameReal", EmSmallFills="= 2", EmSizes="<- S134",
                                           Flavors="<- BothFlavors"))
